@@ -94,11 +94,16 @@ def havoc_conditions(src, frontend):
                  for _, _, t in edits]
 
 
-def declare_unknown_callees(src, frontend, X):
+def declare_unknown_callees(src, frontend, X, type_map=None):
     """R9-auto: a function the extracted text calls but the generated file does not define (`cannot find function NAME in this scope`) - typically a helper that an
     edit of the code under contract introduced - is declared with the signature it has in /repo (searched in the files the unit extracts from) as an external function
     WITHOUT a contract: its result is unconstrained.  Sound for proofs (every result is explored) and it keeps an edited function decidable instead of UNDECIDED.
+    Types the unit replaces by a shim everywhere (its TYPE_MAP, e.g. HashSet<Ident> -> IdentSet) are replaced in these signatures too.
     Returns (new_src, [descriptions]) or (None, [])."""
+    def shim_types(t):
+        for a, b in (type_map or {}).items():
+            t = t.replace(a, b)
+        return t
     names = []
     for fe in frontend:
         m = re.search(r"cannot find function `(\w+)` in this scope", fe.get("message", ""))
@@ -130,7 +135,7 @@ def declare_unknown_callees(src, frontend, X):
         if sig is None:
             return None, []
         ret = re.sub(r"\bResult<([^,<>]+(?:<[^<>]*>)?)>", r"Result<\1, Error>", sig[2])
-        decls.append("#[verifier::external_body] pub fn %s%s(%s) %s { unimplemented!() }" % (nm, sig[0], sig[1], ret))
+        decls.append("#[verifier::external_body] pub fn %s%s(%s) %s { unimplemented!() }" % (nm, sig[0], shim_types(sig[1]), shim_types(ret)))
         notes.append("R9-auto: callee `%s` (%s) is not under contract; declared external with its real signature and NO contract (any result)" % (nm, sig[3]))
     for nm, ty in methods:
         sig = None
@@ -146,7 +151,7 @@ def declare_unknown_callees(src, frontend, X):
         if sig is None:
             return None, []
         ret = re.sub(r"\bResult<([^,<>]+(?:<[^<>]*>)?)>", r"Result<\1, Error>", sig[2])
-        decls.append("impl %s { #[verifier::external_body] pub fn %s%s(%s) %s { unimplemented!() } }" % (ty, nm, sig[0], sig[1], ret))
+        decls.append("impl %s { #[verifier::external_body] pub fn %s%s(%s) %s { unimplemented!() } }" % (ty, nm, sig[0], shim_types(sig[1]), shim_types(ret)))
         notes.append("R9-auto: method `%s::%s` (%s) is not under contract; declared external with its real signature and NO contract (any result, any change of `self`)" % (ty, nm, sig[3]))
     k = src.rfind("} // verus!")
     if k < 0:
@@ -215,6 +220,144 @@ def havoc_typed_lets(src, frontend):
             return None, []
         out = out[:k] + "#[verifier::external_body] pub fn verif_nondet_val<T>() -> T { unimplemented!() }\n" + out[k:]
     return out, ["R5-auto: initialiser of `let %s: %s` is outside the verifier's dialect; replaced by an unconstrained value of that type" % (n, t) for _, _, n, t in edits]
+
+
+def _expand_or_pattern(pat):
+    """All alternatives of a pattern with (possibly nested) `|`, in source order: `(A | B, true)` -> [`(A, true)`, `(B, true)`]."""
+    depth, first = 0, None
+    for k, ch in enumerate(pat):
+        if ch in "([{":
+            depth += 1
+        elif ch in ")]}":
+            depth -= 1
+        elif ch == "|":
+            first = (k, depth)
+            break
+    if first is None:
+        return [pat.strip()]
+    k, d = first
+    # the element that contains this `|` at its own depth 0: from the previous `,` / opening bracket of depth d to the next `,` / closing bracket of depth d
+    a, depth = 0, 0
+    for i in range(k - 1, -1, -1):
+        ch = pat[i]
+        if ch in ")]}":
+            depth += 1
+        elif ch in "([{":
+            if depth == 0:
+                a = i + 1
+                break
+            depth -= 1
+        elif ch == "," and depth == 0:
+            a = i + 1
+            break
+    b, depth = len(pat), 0
+    for i in range(k, len(pat)):
+        ch = pat[i]
+        if ch in "([{":
+            depth += 1
+        elif ch in ")]}":
+            if depth == 0:
+                b = i
+                break
+            depth -= 1
+        elif ch == "," and depth == 0:
+            b = i
+            break
+    alts, depth, last = [], 0, a
+    for i in range(a, b):
+        ch = pat[i]
+        if ch in "([{":
+            depth += 1
+        elif ch in ")]}":
+            depth -= 1
+        elif ch == "|" and depth == 0:
+            alts.append(pat[last:i])
+            last = i + 1
+    alts.append(pat[last:b])
+    out = []
+    for alt in alts:
+        out += _expand_or_pattern(pat[:a] + " " + alt.strip() + pat[b:])
+    return out
+
+
+def split_or_guard_arms(src, frontend):
+    """R16-auto: a match arm `P1 | P2 if G => E` (Verus: "match arm containing both an or-pattern (|) and a match-guard") is written as the arms
+    `P1 if G => E, P2 if G => E` in the same place and order - what the or-pattern means when its alternatives bind no variables (checked: an alternative with a
+    lower-case binding is refused).  Nested alternatives (`(A | B, true)`) are distributed.  Returns (new_src, [descriptions]) or (None, [])."""
+    bsrc = src.encode("utf-8")
+    edits = []
+    for fe in frontend:
+        if "or-pattern" not in fe.get("message", "") or "match-guard" not in fe.get("message", ""):
+            continue
+        a = len(bsrc[:fe["byte_start"]].decode("utf-8", "ignore"))
+        b = len(bsrc[:fe["byte_end"]].decode("utf-8", "ignore"))
+        pat = src[a:b]
+        rest = src[b:]
+        m = re.match(r"\s*if\b", rest)
+        if not m:
+            continue
+        # guard: up to `=>` at depth 0; body: a block, or an expression up to the `,` / `}` of depth 0
+        depth, g_end = 0, None
+        for i in range(m.end(), len(rest)):
+            ch = rest[i]
+            if ch in "([{":
+                depth += 1
+            elif ch in ")]}":
+                depth -= 1
+            elif ch == "=" and depth == 0 and rest[i:i + 2] == "=>":
+                g_end = i
+                break
+        if g_end is None:
+            continue
+        guard = rest[m.end():g_end].strip()
+        j = g_end + 2
+        while rest[j].isspace():
+            j += 1
+        depth, e_end = 0, None
+        if rest[j] == "{":
+            for i in range(j, len(rest)):
+                if rest[i] == "{":
+                    depth += 1
+                elif rest[i] == "}":
+                    depth -= 1
+                    if depth == 0:
+                        e_end = i + 1
+                        break
+            body = rest[j:e_end]
+            k = e_end
+            while rest[k].isspace():
+                k += 1
+            if rest[k] == ",":
+                e_end = k + 1
+        else:
+            for i in range(j, len(rest)):
+                ch = rest[i]
+                if ch in "([{":
+                    depth += 1
+                elif ch in ")]}":
+                    depth -= 1
+                    if depth < 0:
+                        e_end = i
+                        break
+                elif ch == "," and depth == 0:
+                    e_end = i + 1
+                    break
+            body = rest[j:e_end].rstrip().rstrip(",")
+        if e_end is None:
+            continue
+        alts = _expand_or_pattern(pat)
+        # alternatives must not bind variables: every identifier is a path segment (upper-case start, or followed by `::`), `_`, or a literal
+        binds = [w for alt in alts for w in re.findall(r"(?<![\w:])([a-z]\w*)(?!\w|\s*::)", alt) if w not in ("true", "false", "ref", "mut")]
+        if binds or len(alts) < 2:
+            continue
+        arms = "".join("%s if %s => %s,\n        " % (alt, guard, body) for alt in alts)
+        edits.append((a, b + e_end, arms, " ".join(pat.split())))
+    if not edits:
+        return None, []
+    out = src
+    for a, b, arms, _ in sorted(edits, reverse=True):
+        out = out[:a] + arms + out[b:]
+    return out, ["R16-auto: match arm `%s if ..` has an or-pattern and a guard; written as one guarded arm per alternative, same order" % t[:120] for _, _, _, t in edits]
 
 
 def desugar_destructuring_assign(src):
@@ -386,7 +529,9 @@ def run_unit(name, tier):
         if not (r["undecided"] and r.get("frontend")):
             break
         cur = open(b["path"], encoding="utf-8").read()
-        new_src, notes = declare_unknown_callees(cur, r["frontend"], b["X"])
+        new_src, notes = declare_unknown_callees(cur, r["frontend"], b["X"], getattr(unit, "TYPE_MAP", None))
+        if new_src is None:
+            new_src, notes = split_or_guard_arms(cur, r["frontend"])
         if new_src is None:
             new_src, notes = havoc_conditions(cur, r["frontend"])
         if new_src is None:
